@@ -1,4 +1,5 @@
 """C02 — JSON signing / verification: error atomicity, signed content, verification quantifiers, encoding, argument roles."""
+import re
 from .. import dex as D, world as W, mir as M
 from . import util as U
 from .C05 import m_clone, field, alphabet_of, STD
@@ -16,6 +17,14 @@ FN = "ruma_signatures::functions"
 # Reviewed exception (not a finding): serde_json::to_string of a BTreeMap<String, CanonicalJsonValue> into a String cannot fail
 # (string keys, integer-only numbers, infallible writer); the Err edge exists in MIR only because the API is fallible.
 INFEASIBLE_ERR = "ser::to_string(object)"
+
+
+# slice -> fixed-size conversions that fail unless the length is exactly right (TryFrom<&[u8]> for &[u8; N] / [u8; N] / ed25519::Signature)
+EXACT_LENGTH = {"try_into", "try_from", "from_bytes", "from_slice", "as_ref", "borrow", "deref", "as_slice", "as_bytes", "to_bytes"}
+# operations that look at a part of a slice
+NARROWING = {"first_chunk", "last_chunk", "split_first_chunk", "split_last_chunk", "split_at", "split_at_checked", "get", "get_unchecked", "index", "chunks",
+             "chunks_exact", "as_chunks", "array_chunks", "take", "skip", "first", "last", "split_first", "split_last", "trim_ascii", "trim_ascii_start",
+             "trim_ascii_end", "strip_prefix", "strip_suffix", "windows", "iter", "into_iter", "copy_from_slice", "truncate"}
 
 
 def run(ctx):
@@ -229,6 +238,25 @@ def run(ctx):
         ctx.check(good, "C02.ed25519", "C02.ed25519:roles", w.where(f7), bad_msg=f"{[(e[0].rsplit('::', 1)[-1], U.shows(e[1])) for e in p.effects]}"[:400])
         # result is the (mapped) result of verify: never a constant Ok
         ctx.check("verify(" in D.show(p.ret), "C02.ed25519", "C02.ed25519:result-from-verify", w.where(f7), bad_msg=f"returns {D.show(p.ret)[:120]}")
+        # the WHOLE key and the WHOLE signature are checked: they reach dalek only through conversions that fail on any other length
+        if len(fb) == 1 and len(vf) == 1:
+            for what, shown in (("public_key", D.show(fb[0][1][0])), ("signature", U.shows(vf[0][1])[2])):
+                calls = set(re.findall(r"([A-Za-z_][\w:]*)\(", shown)) | set(re.findall(r"fn\[([\w:<>, ]+)\]", shown))
+                calls = {c.rsplit("::", 1)[-1] for c in calls} - {"apply"}
+                narrowing = calls & NARROWING
+                # ... unless the path has already established the exact length
+                exact = any(f"len({what})" in D.show_atom(a) and (("==" in D.show_atom(a) and t) or ("!=" in D.show_atom(a) and not t)) for a, t in p.conds)
+                if exact:
+                    narrowing = set()
+                unknown = calls - EXACT_LENGTH - NARROWING
+                if narrowing:
+                    ctx.violation("C02.ed25519", f"C02.ed25519:whole-input:{what}", w.where(f7),
+                                  f"the {what} reaches ed25519 through {sorted(narrowing)} ({shown[:120]}): only a part of the supplied bytes is looked at, so "
+                                  f"bytes appended to a valid {what} still verify (any change to signature or key must make verification fail)")
+                elif unknown:
+                    ctx.unrecognised("C02.ed25519", f"C02.ed25519:whole-input:{what}", w.where(f7), f"the {what} reaches ed25519 through {sorted(unknown)}: not known to be length-exact")
+                else:
+                    ctx.ok("C02.ed25519", f"C02.ed25519:whole-input:{what}", w.where(f7), f"{shown[:100]}: exact-length conversion only")
     ctx.floor("ed25519 non-error paths", len(okp7), 1)
     f8 = w.fn("ruma_signatures::verification::verifier_from_algorithm")
     ps = dex.paths(f8, [D.sym("algorithm")])
